@@ -16,8 +16,9 @@ PROPS["C07"] = {
                     "X: 'compares equal (numbers by value)' = library operator== in both directions plus equality of a value-level rendering "
                     "(integral floats and integers of the same value coincide); texts that deserializeJson does not accept are C01's business and are skipped",
                     "default configuration"],
-    "quick": [{"src": "checks/dx.cpp", "mode": "roundtrip", "arduino": True, "deps": _DX_DEPS}],
-    "thorough": [{"src": "checks/dx.cpp", "mode": "roundtrip", "arduino": True, "deps": _DX_DEPS},
+    # hang_s: the 65535/65536-member MessagePack round trips take tens of seconds under ASan on a busy machine
+    "quick": [{"src": "checks/dx.cpp", "mode": "roundtrip", "arduino": True, "deps": _DX_DEPS, "hang_s": 600}],
+    "thorough": [{"src": "checks/dx.cpp", "mode": "roundtrip", "arduino": True, "deps": _DX_DEPS, "hang_s": 600},
                  # second pass (J and M only): all 5-node trees (6-leaf alphabet below depth 2), -O2 build without sanitizers
                  {"src": "checks/dx.cpp", "mode": "roundtrip", "flavour": "fast", "arduino": True, "deps": _DX_DEPS, "args": ["--exact=5", "--deepfrom=2"]}],
     "thorough_deadline": 780,
